@@ -237,3 +237,16 @@ class recording:
     def __exit__(self, *exc):
         M.cur = self.prev
         return False
+
+
+class suspended:
+    """Context manager: no record is active (used while a host callback re-enters the parser: the nested
+    evaluation is a call of its own, with its own VM state and budget)."""
+
+    def __enter__(self):
+        self.prev = M.cur
+        M.cur = None
+
+    def __exit__(self, *exc):
+        M.cur = self.prev
+        return False
